@@ -173,6 +173,11 @@ func runC15(c *core.Ctx) {
 			if r.Chance(1, 8) {
 				s = -s
 			}
+			if r.Chance(1, 4) {
+				// within a day either side of the two ends of the range (where a bound computed in
+				// local time is off by the zone offset)
+				s = []int64{0, 1 << 32}[r.Pick(2)] + int64(r.Pick(2*86400+1)) - 86400
+			}
 		}
 		c.Eval(1)
 		in := []byte(fmt.Sprint(s))
@@ -180,7 +185,26 @@ func runC15(c *core.Ctx) {
 		var gw data.Hash
 		gw[0] = 1
 		nanos := int64(r.Pick(1000000000))
-		l, err := lease.NewLease2(gw, 7, time.Unix(s, nanos))
+		// the instant is what counts, not the Location it is expressed in
+		at := time.Unix(s, nanos)
+		switch (i / 3) % 4 {
+		case 1:
+			at = at.UTC()
+			sh["location"] = "UTC"
+		case 2:
+			off := (r.Pick(26*4+1) - 12*4) * 900 // UTC-12:00 .. UTC+14:00 in quarter hours
+			at = at.In(time.FixedZone("zone", off))
+			sh["location"] = fmt.Sprintf("fixed%+d", off)
+		case 3:
+			for _, name := range []string{"America/New_York", "Asia/Kolkata", "Pacific/Kiritimati", "Pacific/Pago_Pago"}[r.Pick(4):] {
+				if loc, err := time.LoadLocation(name); err == nil {
+					at = at.In(loc)
+					sh["location"] = name
+					break
+				}
+			}
+		}
+		l, err := lease.NewLease2(gw, 7, at)
 		c.OpResult("lease.NewLease2", err == nil)
 		c.Nontrivial([]byte("l2ctor"), in)
 		if s >= 0 && s <= 1<<32-1 {
